@@ -303,7 +303,7 @@ func contractMentions(c *Contract, p string) bool {
 	if hasPosTag(c.Safety, p) {
 		return true
 	}
-	for _, l := range [][]*Clause{c.Ensures, c.Canaries, c.Invs} {
+	for _, l := range [][]*Clause{c.Ensures, c.Canaries, c.Invs, c.Asserts, c.NoAlloc} {
 		for _, cl := range l {
 			if hasPosTag(cl.Tags, p) {
 				return true
